@@ -226,6 +226,10 @@ func (e *kvElection) Start(ctx context.Context) error {
 		if err := e.attemptAcquire(); err != nil {
 			e.recordAcquireAttempt("failed")
 			e.recordFailure(classifyErrorType(err))
+			if e.IsLeader() {
+				// Another acquisition of this instance won meanwhile.
+				return
+			}
 			e.becomeFollower()
 		}
 	}()
@@ -259,8 +263,18 @@ func (e *kvElection) attemptAcquireWithRetry(ctx context.Context) {
 		default:
 		}
 
+		// Several rounds of one instance can overlap (watch event plus periodic
+		// check). Once one of them has won, the others have nothing left to do and
+		// must not demote the leader when their own attempts fail on its record.
+		if e.IsLeader() {
+			return
+		}
+
 		err := e.attemptAcquire()
 		if err == nil {
+			return
+		}
+		if e.IsLeader() {
 			return
 		}
 
